@@ -62,6 +62,20 @@ def slow_sinks(prog, rng):
 
 
 def gen_case(rng, fam):
+    if fam == 'A1' and rng.random() < 0.08:
+        # a collector flushed by a second stream (`trigger.sink(collector.flush)`): the trigger's emit hands the collection
+        # to the consumers behind the collector and has to wait for them like any other emit
+        g = aprogs.AGen(rng)
+        nodes = [{'id': 'n0', 'op': 'source', 'ups': []}, {'id': 'n1', 'op': 'source', 'ups': []},
+                 {'id': 'c', 'op': 'collect', 'ups': ['n0']}, {'id': 'fl', 'op': 'sink_flush', 'ups': ['n1'], 'target': 'c'}]
+        last = 'c'
+        if rng.random() < 0.4:
+            nodes.append({'id': 'm', 'op': 'map', 'ups': ['c'], 'f': 'ident'})
+            last = 'm'
+        nodes.append({'id': 'sk', 'op': 'sink', 'ups': [last], 'kind': rng.choice(['coro', 'future', 'tornado', 'awaitable']),
+                      'svc': [rng.choice([0.25, 0.5, 1.0])]})
+        items = [[rng.choice(aprogs.GAP_GRID), rng.choice(['n0', 'n0', 'n1']), rng.randrange(5), 1] for _ in range(rng.randrange(3, 12))]
+        return {'family': fam, 'prog': {'nodes': nodes, 'extra_edges': []}, 'producers': [items], 'awaiting': True, 'flush_trigger': True}
     if fam == 'A1':
         g = aprogs.AGen(rng, async_ops=['rate_limit'], sync_ops=DIRECT_SYNC, max_nodes=7, p_async=0.2)
         prog = g.program(min_async=0)
